@@ -333,6 +333,8 @@ def extract_fn(repo, blk, meta, mode):
     item = X.drop_vis(item, log)
     item = X.erase_async(item, log, awaitcall=blk.awaitcall)
     item = X.closure_underscore(item, log)
+    if 'dropuses' in blk.flags:
+        item = X.drop_body_uses(item, log)
     item = X.desugar_vec_extend(item, log)
     item = X.desugar_iter_mut(item, log)
     item = X.desugar_range_inclusive(item, log)
@@ -347,7 +349,7 @@ def extract_fn(repo, blk, meta, mode):
     for pat, rep, rule in blk.substs + meta['gsubst']:
         item, cnt = X.subst_tokens(item, pat, rep, log, rule)
         item = X.relex(item)
-        if cnt == 0 and (pat, rep, rule) in blk.substs and 'optional' not in rule:
+        if cnt == 0 and (pat, rep, rule) in blk.substs and 'optional' not in rule and not (pat.strip().startswith('use ') and rep.strip() == ''):
             guard = blk.unless.get(pat)
             flat = re.sub(r'\s+', '', text(item))
             if guard is not None and not re.search(guard, flat):
